@@ -12,6 +12,8 @@ package main
 //	ord   `a < b` becomes `b > a` (and <=, >, >= likewise) for side-effect free operands
 //	lit   the elements of a keyed struct literal are written in reverse order
 //	      when every value is side-effect free
+//	log   a trace log line is added at the start of every function and of every
+//	      if/else body (files that import zerolog's log package)
 //	and   operands of && and || are swapped when both only mention plain
 //	      identifiers and literals (nothing that can panic or have an effect)
 //
@@ -79,6 +81,51 @@ func shapeFile(path string, kinds map[string]bool, cnt map[string]int) error {
 		}
 	}
 	changed := false
+	hasLog := false
+	for _, im := range f.Imports {
+		if im.Path.Value == `"github.com/rs/zerolog/log"` && (im.Name == nil || im.Name.Name == "log") {
+			hasLog = true
+		}
+	}
+	logStmt := func() ast.Stmt {
+		// log.Trace().Msg("reshaped")
+		return &ast.ExprStmt{X: &ast.CallExpr{
+			Fun:  &ast.SelectorExpr{X: &ast.CallExpr{Fun: &ast.SelectorExpr{X: ast.NewIdent("log"), Sel: ast.NewIdent("Trace")}}, Sel: ast.NewIdent("Msg")},
+			Args: []ast.Expr{&ast.BasicLit{Kind: token.STRING, Value: `"reshaped"`}},
+		}}
+	}
+	shadowsLog := func(fd *ast.FuncDecl) bool {
+		sh := false
+		ast.Inspect(fd, func(n ast.Node) bool {
+			if id, ok := n.(*ast.Ident); ok && id.Name == "log" && id.Obj != nil && id.Obj.Kind == ast.Var {
+				sh = true
+			}
+			return !sh
+		})
+		return sh
+	}
+	if kinds["log"] && hasLog {
+		for _, d := range f.Decls {
+			fd, ok := d.(*ast.FuncDecl)
+			if !ok || fd.Body == nil || shadowsLog(fd) {
+				continue
+			}
+			fd.Body.List = append([]ast.Stmt{logStmt()}, fd.Body.List...)
+			cnt["log"]++
+			changed = true
+			ast.Inspect(fd.Body, func(n ast.Node) bool {
+				if is, ok := n.(*ast.IfStmt); ok {
+					is.Body.List = append([]ast.Stmt{logStmt()}, is.Body.List...)
+					cnt["log"]++
+					if eb, ok := is.Else.(*ast.BlockStmt); ok {
+						eb.List = append([]ast.Stmt{logStmt()}, eb.List...)
+						cnt["log"]++
+					}
+				}
+				return true
+			})
+		}
+	}
 	ast.Inspect(f, func(n ast.Node) bool {
 		switch x := n.(type) {
 		case *ast.CompositeLit:
